@@ -1,7 +1,8 @@
 //! C19: topology views of module graphs built with the real `des::net` builder API.
 //!
 //! Script lines (build part as in c08):
-//!   mod m<i>
+//!   mod m<i> [parent=m<k>]     module `m<i>`, top level or as a child of an already created module (path parent.m<i>);
+//!                              modules appear in answers by their last path segment
 //!   gate g<j> mod=m<i>
 //!   connect g<a> g<b>
 //!   topo                       Globals::topology(): nodes, edges, connected, bidirectional
@@ -16,6 +17,11 @@
 //!        <view> = topo | sp:m<r> (Topology::spanned(m<r>))
 //!        <rule> (what the predicate keeps; from/to = module numbers of the edge's two nodes):
 //!               lt (from < to) | gt (from > to) | succ:<n> (to == (from+1) % n) | starts:g1,g5,…|starts:none (start gate listed)
+//!   run-time ops (the simulation is run if there are any; module m<k> executes the op from `handle_message` at time <t>):
+//!   rgate g<j> at=<t> by=m<k>          m<k> creates the gate g<j> on itself
+//!   rconnect g<a> g<b> at=<t> by=m<k>  m<k> connects the two gates
+//!   rtopo at=<t> by=m<k>               m<k> records Topology::current()
+//!   rspanned m<r> at=<t> by=m<k>       m<k> records Topology::spanned(m<r>)
 //! Transcript answers:
 //!   nodes=m0,m1 edges=m0:g1>m1:g4;… conn=<0|1> bidi=<0|1>      (an edge is from-node:start-gate > to-node:end-gate)
 //!   dijkstra … -> m2=m1:g1>m0:g3;…|none                          (sorted by module)
@@ -27,10 +33,88 @@ use des::prelude::*;
 use std::collections::HashMap;
 use std::fmt::Write;
 
-struct Dummy;
-impl Module for Dummy {}
-
 type Rev = HashMap<(String, String, usize), String>;
+
+thread_local! {
+    static REV: std::cell::RefCell<Rev> = std::cell::RefCell::new(HashMap::new());
+    static GATES: std::cell::RefCell<HashMap<String, GateRef>> = std::cell::RefCell::new(HashMap::new());
+    static PATHS: std::cell::RefCell<HashMap<String, String>> = std::cell::RefCell::new(HashMap::new());
+    static RUNRES: std::cell::RefCell<Vec<(u16, String)>> = std::cell::RefCell::new(Vec::new());
+}
+
+const RUNOP: MessageKind = 7790;
+
+#[derive(Clone, Debug)]
+struct RunOp {
+    idx: u16,
+    at: u64,
+    toks: Vec<String>,
+}
+
+struct Node {
+    ops: Vec<RunOp>,
+}
+
+impl Node {
+    fn exec(&self, op: &RunOp) -> String {
+        let t: Vec<&str> = op.toks.iter().map(|s| s.as_str()).collect();
+        match t.as_slice() {
+            ["rgate", g, ..] => {
+                let gr = current().me().create_gate(g);
+                let owner = current().path().as_str().to_string();
+                REV.with(|r| r.borrow_mut().insert((owner, gr.name().to_string(), gr.pos()), g.to_string()));
+                GATES.with(|m| m.borrow_mut().insert(g.to_string(), gr));
+                "ok".into()
+            }
+            ["rconnect", a, b, ..] => {
+                let pair = GATES.with(|m| (m.borrow().get(*a).cloned(), m.borrow().get(*b).cloned()));
+                match pair {
+                    (Some(ga), Some(gb)) => {
+                        use des::net::gate::GateKind;
+                        if a == b || ga.kind() == GateKind::Transit || gb.kind() == GateKind::Transit {
+                            "skipped".into()
+                        } else {
+                            ga.connect(gb, None);
+                            "ok".into()
+                        }
+                    }
+                    _ => "nogate".into(),
+                }
+            }
+            ["rtopo", ..] => REV.with(|r| describe(&r.borrow(), &Topology::current())),
+            ["rspanned", m, ..] => {
+                let path = PATHS.with(|p| p.borrow().get(*m).cloned());
+                match path.and_then(|p| des::net::globals().get(&p.as_str().into())) {
+                    Some(root) => REV.with(|r| describe(&r.borrow(), &Topology::spanned(root))),
+                    None => "nomod".into(),
+                }
+            }
+            _ => "?".into(),
+        }
+    }
+}
+
+impl Module for Node {
+    fn at_sim_start(&mut self, _stage: usize) {
+        for op in &self.ops {
+            schedule_in(Message::default().kind(RUNOP).id(op.idx), Duration::from_nanos(op.at));
+        }
+    }
+    fn handle_message(&mut self, msg: Message) {
+        if msg.header().kind == RUNOP {
+            let id = msg.header().id;
+            if let Some(op) = self.ops.iter().find(|o| o.idx == id).cloned() {
+                let r = self.exec(&op);
+                RUNRES.with(|v| v.borrow_mut().push((id, r)));
+            }
+        }
+    }
+}
+
+/// last segment of a module path: the script name of the module
+fn leaf(p: &str) -> &str {
+    p.rsplit('.').next().unwrap_or(p)
+}
 
 fn gname(rev: &Rev, g: &GateRef) -> String {
     rev.get(&(g.owner().path().as_str().to_string(), g.name().to_string(), g.pos()))
@@ -41,9 +125,9 @@ fn gname(rev: &Rev, g: &GateRef) -> String {
 fn edge_str<N, C>(rev: &Rev, e: &Edge<'_, N, C>) -> String {
     format!(
         "{}:{}>{}:{}",
-        e.from.module().path().as_str(),
+        leaf(e.from.module().path().as_str()),
         gname(rev, &e.from.gate()),
-        e.to.module().path().as_str(),
+        leaf(e.to.module().path().as_str()),
         gname(rev, &e.to.gate())
     )
 }
@@ -57,7 +141,7 @@ fn list_or(e: &str, v: Vec<String>, sep: &str) -> String {
 }
 
 fn describe(rev: &Rev, t: &Topology<(), ()>) -> String {
-    let nodes: Vec<String> = t.nodes().iter().map(|n| n.module().path().as_str().to_string()).collect();
+    let nodes: Vec<String> = t.nodes().iter().map(|n| leaf(n.module().path().as_str()).to_string()).collect();
     let edges: Vec<String> = t.edges().map(|e| edge_str(rev, &e)).collect();
     format!(
         "nodes={} edges={} conn={} bidi={}",
@@ -69,14 +153,14 @@ fn describe(rev: &Rev, t: &Topology<(), ()>) -> String {
 }
 
 fn mod_index(m: &str) -> u64 {
-    m.trim_start_matches('m').parse().unwrap_or(u64::MAX)
+    leaf(m).trim_start_matches('m').parse().unwrap_or(u64::MAX)
 }
 
 fn dijkstra_str(rev: &Rev, t: &Topology<(), ()>, src: &str) -> String {
     let map = t.dijkstra(src);
     let mut v: Vec<(u64, String)> = map
         .iter()
-        .map(|(k, e)| (mod_index(k.as_str()), format!("{}={}", k.as_str(), edge_str(rev, e))))
+        .map(|(k, e)| (mod_index(k.as_str()), format!("{}={}", leaf(k.as_str()), edge_str(rev, e))))
         .collect();
     v.sort();
     list_or("none", v.into_iter().map(|x| x.1).collect(), ";")
@@ -121,29 +205,58 @@ fn run_case(header: &str, body: &[String], out: &mut String) {
     }
     let mut sim = Sim::new(());
     let mut mods: Vec<String> = Vec::new();
+    let mut paths: HashMap<String, String> = HashMap::new();
     let mut gates: HashMap<String, GateRef> = HashMap::new();
     let mut rev: Rev = HashMap::new();
     let mut poisoned = false;
+    // run-time ops, by executing module
+    let mut run_ops: HashMap<String, Vec<RunOp>> = HashMap::new();
+    let mut run_lines: Vec<(u64, u16, String)> = Vec::new();
     for line in body {
         let tok: Vec<&str> = line.split_whitespace().collect();
+        if matches!(tok.first(), Some(&"rgate") | Some(&"rconnect") | Some(&"rtopo") | Some(&"rspanned")) {
+            let l = line.as_str();
+            if let (Some(at), Some(by)) = (hval(l, "at").and_then(|v| v.parse::<u64>().ok()), hval(l, "by")) {
+                let idx = run_lines.len() as u16;
+                run_ops.entry(by).or_default().push(RunOp { idx, at, toks: tok.iter().map(|x| x.to_string()).collect() });
+                run_lines.push((at, idx, line.clone()));
+            }
+        }
+    }
+    let mut build_out = String::new();
+    for line in body {
+        let out = &mut build_out;
+        let tok: Vec<&str> = line.split_whitespace().collect();
+        let pp = |paths: &HashMap<String, String>, m: &str| paths.get(m).cloned().unwrap_or_else(|| m.to_string());
         let ans: Option<String> = match tok.as_slice() {
-            ["mod", m] => {
-                if mods.contains(&m.to_string()) {
-                    None
-                } else if guarded(|| sim.node(*m, Dummy)).is_ok() {
-                    mods.push(m.to_string());
-                    Some("ok".into())
-                } else {
-                    None
+            ["mod", m, rest @ ..] => {
+                let parent = hval(&rest.join(" "), "parent");
+                let path = match &parent {
+                    Some(p) => paths.get(p).map(|pp| format!("{pp}.{m}")),
+                    None => Some(m.to_string()),
+                };
+                match path {
+                    Some(path) if !mods.contains(&m.to_string()) => {
+                        let node = Node { ops: run_ops.get(*m).cloned().unwrap_or_default() };
+                        if guarded(|| sim.node(path.as_str(), node)).is_ok() {
+                            mods.push(m.to_string());
+                            paths.insert(m.to_string(), path);
+                            Some("ok".into())
+                        } else {
+                            None
+                        }
+                    }
+                    _ => None,
                 }
             }
             ["gate", g, rest @ ..] => {
                 let l = rest.join(" ");
                 match hval(&l, "mod") {
                     Some(m) if mods.contains(&m) && !gates.contains_key(*g) => {
-                        match guarded(|| sim.gate(m.as_str(), g)) {
+                        let mp = pp(&paths, &m);
+                        match guarded(|| sim.gate(mp.as_str(), g)) {
                             Ok(gr) => {
-                                rev.insert((m.clone(), gr.name().to_string(), gr.pos()), g.to_string());
+                                rev.insert((mp.clone(), gr.name().to_string(), gr.pos()), g.to_string());
                                 gates.insert(g.to_string(), gr);
                                 Some("ok".into())
                             }
@@ -168,18 +281,18 @@ fn run_case(header: &str, body: &[String], out: &mut String) {
             ["topo"] => Some(guarded(|| describe(&rev, &sim.globals().topology())).unwrap_or_else(|_| "panic".into())),
             ["spanned", m] if mods.contains(&m.to_string()) => Some(
                 guarded(|| {
-                    let root = sim.get(&(*m).into()).expect("module");
+                    let root = sim.get(&pp(&paths, m).as_str().into()).expect("module");
                     describe(&rev, &Topology::spanned(root))
                 })
                 .unwrap_or_else(|_| "panic".into()),
             ),
             ["dijkstra", m] if mods.contains(&m.to_string()) => {
-                Some(guarded(|| dijkstra_str(&rev, &sim.globals().topology(), m)).unwrap_or_else(|_| "panic".into()))
+                Some(guarded(|| dijkstra_str(&rev, &sim.globals().topology(), &pp(&paths, m))).unwrap_or_else(|_| "panic".into()))
             }
             ["sdijkstra", r, m] if mods.contains(&r.to_string()) && mods.contains(&m.to_string()) => Some(
                 guarded(|| {
-                    let root = sim.get(&(*r).into()).expect("module");
-                    dijkstra_str(&rev, &Topology::spanned(root), m)
+                    let root = sim.get(&pp(&paths, r).as_str().into()).expect("module");
+                    dijkstra_str(&rev, &Topology::spanned(root), &pp(&paths, m))
                 })
                 .unwrap_or_else(|_| "panic".into()),
             ),
@@ -188,7 +301,7 @@ fn run_case(header: &str, body: &[String], out: &mut String) {
                 Some(
                     guarded(|| {
                         let mut t = sim.globals().topology();
-                        t.filter_nodes(|n| keep.contains(&n.module().path().as_str().to_string()));
+                        t.filter_nodes(|n| keep.contains(&leaf(n.module().path().as_str()).to_string()));
                         describe(&rev, &t)
                     })
                     .unwrap_or_else(|_| "panic".into()),
@@ -213,15 +326,15 @@ fn run_case(header: &str, body: &[String], out: &mut String) {
                 Some(
                     guarded(|| {
                         let mut t = match &root {
-                            Some(r) => Topology::spanned(sim.get(&r.as_str().into()).expect("module")),
+                            Some(r) => Topology::spanned(sim.get(&pp(&paths, r).as_str().into()).expect("module")),
                             None => sim.globals().topology(),
                         };
                         t.filter_edges(|e| keeps(&rule, &rev, &e));
                         match op.as_str() {
                             "fedges" => describe(&rev, &t),
-                            "fdijkstra" => dijkstra_str(&rev, &t, arg.as_ref().unwrap()),
+                            "fdijkstra" => dijkstra_str(&rev, &t, &pp(&paths, arg.as_ref().unwrap())),
                             _ => {
-                                let v: Vec<String> = t.edges_for(arg.as_ref().unwrap().as_str()).map(|e| edge_str(&rev, &e)).collect();
+                                let v: Vec<String> = t.edges_for(pp(&paths, arg.as_ref().unwrap()).as_str()).map(|e| edge_str(&rev, &e)).collect();
                                 list_or("none", v, ";")
                             }
                         }
@@ -232,7 +345,7 @@ fn run_case(header: &str, body: &[String], out: &mut String) {
             ["edgesfor", m] => Some(
                 guarded(|| {
                     let t = sim.globals().topology();
-                    let v: Vec<String> = t.edges_for(*m).map(|e| edge_str(&rev, &e)).collect();
+                    let v: Vec<String> = t.edges_for(pp(&paths, m).as_str()).map(|e| edge_str(&rev, &e)).collect();
                     list_or("none", v, ";")
                 })
                 .unwrap_or_else(|_| "panic".into()),
@@ -243,8 +356,37 @@ fn run_case(header: &str, body: &[String], out: &mut String) {
             writeln!(out, "{line} -> {a}").unwrap();
         }
     }
-    let r = guarded(move || drop(sim));
-    writeln!(out, "end{}", if r.is_err() { " drop-panic" } else { "" }).unwrap();
+    out.push_str(&build_out);
+    let mut note = "";
+    if run_lines.is_empty() || poisoned {
+        let r = guarded(move || drop(sim));
+        if r.is_err() {
+            note = " drop-panic";
+        }
+    } else {
+        // run the simulation: the modules execute their run-time ops
+        REV.with(|r| *r.borrow_mut() = rev.clone());
+        GATES.with(|g| *g.borrow_mut() = gates.clone());
+        PATHS.with(|p| *p.borrow_mut() = paths.clone());
+        RUNRES.with(|v| v.borrow_mut().clear());
+        let rt = Builder::seeded(1).quiet().max_time(1000.0.into()).build(sim.freeze());
+        let res = guarded(move || rt.run().map(|_| ()).map_err(|e| format!("{e}")));
+        match res {
+            Ok(Ok(())) => {}
+            Ok(Err(_)) => note = " run-error",
+            Err(_) => note = " run-panic",
+        }
+        run_lines.sort();
+        let results = RUNRES.with(|v| v.borrow().clone());
+        for (_, idx, line) in &run_lines {
+            if let Some((_, r)) = results.iter().find(|x| x.0 == *idx) {
+                writeln!(out, "{line} -> {r}").unwrap();
+            }
+        }
+        GATES.with(|g| g.borrow_mut().clear());
+        REV.with(|r| r.borrow_mut().clear());
+    }
+    writeln!(out, "end{note}").unwrap();
 }
 
 pub fn exec(input: &str) -> String {
@@ -262,8 +404,15 @@ pub fn gen(seed: u64, count: usize, thorough: bool) -> String {
         let nmods = r.range(1, if thorough { 9 } else { 7 }) as usize;
         let shape = r.below(6);
         writeln!(out, "case {k} shape={shape}").unwrap();
+        // module tree: in half of the cases a module may become a child of any earlier module, whatever was
+        // created in between (children after later siblings / uncles: ModuleTree order != creation order)
+        let tree = r.chance(1, 2);
         for m in 0..nmods {
-            writeln!(out, "mod m{m}").unwrap();
+            if tree && m > 0 && r.chance(3, 5) {
+                writeln!(out, "mod m{m} parent=m{}", r.below(m as u64)).unwrap();
+            } else {
+                writeln!(out, "mod m{m}").unwrap();
+            }
         }
         // module pairs to link
         let mut pairs: Vec<(usize, usize)> = Vec::new();
@@ -319,7 +468,23 @@ pub fn gen(seed: u64, count: usize, thorough: bool) -> String {
             pairs.swap(i, j);
         }
         let mut g = 0usize;
-        for (a, b) in pairs {
+        // the last one or two links are made while the simulation runs (in a third of the cases)
+        let nrun = if r.chance(1, 3) { (r.range(1, 2) as usize).min(pairs.len()) } else { 0 };
+        let nbuild = pairs.len() - nrun;
+        let run_pairs: Vec<(usize, usize)> = pairs[nbuild..].to_vec();
+        let pairs: Vec<(usize, usize)> = pairs[..nbuild].to_vec();
+        let npairs = pairs.len();
+        for (pi, (a, b)) in pairs.into_iter().enumerate() {
+            // the global view is extracted several times while the network is wired
+            if npairs >= 2 && pi > 0 && r.chance(1, 3) {
+                writeln!(out, "topo").unwrap();
+                if r.chance(1, 2) {
+                    writeln!(out, "spanned m{}", r.below(nmods as u64)).unwrap();
+                }
+                if r.chance(1, 3) {
+                    writeln!(out, "dijkstra m{}", r.below(nmods as u64)).unwrap();
+                }
+            }
             // a chain from a gate on `a` to a gate on `b` through 0.. transit gates on arbitrary modules
             let transit = match r.below(10) {
                 0..=5 => 0,
@@ -392,6 +557,37 @@ pub fn gen(seed: u64, count: usize, thorough: bool) -> String {
         for _ in 0..r.range(1, 3) {
             let keep: Vec<String> = (0..nmods).filter(|_| r.chance(2, 3)).map(|m| format!("m{m}")).collect();
             writeln!(out, "filter {}", if keep.is_empty() { "none".to_string() } else { keep.join(",") }).unwrap();
+        }
+        // run time: modules record the views, create gates, wire further links and record again
+        if nrun > 0 {
+            let mut t = 10u64;
+            let by = |r: &mut Rng| r.below(nmods as u64);
+            writeln!(out, "rtopo at={t} by=m{}", by(&mut r)).unwrap();
+            t += 10;
+            for (a, b) in run_pairs {
+                // each module creates its own new gate, then some module connects them
+                writeln!(out, "rgate g{g} at={t} by=m{a}").unwrap();
+                t += 10;
+                writeln!(out, "rgate g{} at={t} by=m{b}", g + 1).unwrap();
+                t += 10;
+                if r.chance(1, 3) {
+                    writeln!(out, "rtopo at={t} by=m{}", by(&mut r)).unwrap();
+                    t += 10;
+                }
+                if r.chance(1, 2) {
+                    writeln!(out, "rconnect g{g} g{} at={t} by=m{}", g + 1, by(&mut r)).unwrap();
+                } else {
+                    writeln!(out, "rconnect g{} g{g} at={t} by=m{}", g + 1, by(&mut r)).unwrap();
+                }
+                t += 10;
+                g += 2;
+                writeln!(out, "rtopo at={t} by=m{}", by(&mut r)).unwrap();
+                t += 10;
+                if r.chance(2, 3) {
+                    writeln!(out, "rspanned m{} at={t} by=m{}", r.below(nmods as u64), by(&mut r)).unwrap();
+                    t += 10;
+                }
+            }
         }
         writeln!(out, "end").unwrap();
     }
